@@ -1,3 +1,4 @@
+import CfdpVerif.Props.C02
 import CfdpVerif.Props.C04
 import CfdpVerif.Props.C06
 import CfdpVerif.Props.C08
@@ -6,7 +7,12 @@ import CfdpVerif.Props.C17
 # C03 — acknowledged mode recovers from bounded loss, duplication and reordering
 
 The full statement is a liveness property of two communicating state machines under an adversarial
-link; it is NOT proved here as one theorem (DESIGN.md §6 C03, stage 4).  Proved are the safety half
+link; it is NOT proved here as one theorem (DESIGN.md §6 C03, stage 4).  Proved as whole-run
+theorems about the receiver model, for every file, segment length, header configuration and checksum
+type: `C03_single_loss_recovery` (any one File Data PDU but the last never arrives: exactly one NAK
+with exactly the missing range, the retransmission completes the file, verification, Finished PDU,
+idle, file byte-identical) and `C03_tail_loss_recovery` (everything from some offset on is missing at
+the EOF).  Proved are the safety half
 (`Props/C01`: no fault schedule turns into a wrong success) and every recovery mechanism the
 argument of DESIGN.md Appendix D uses, each for all states and inputs:
 
@@ -32,7 +38,7 @@ set_option linter.unusedVariables false
 
 namespace Cfdp.C03
 
-open Cfdp Cfdp.Dest
+open Cfdp Cfdp.Dest Cfdp.C02
 
 /-- writing the same payload at the same offset twice is the same as writing it once -/
 theorem C03_duplicate_write_idempotent (old d : List UInt8) (o : Nat) :
@@ -113,5 +119,704 @@ theorem C03_fd_after_eof_without_metadata_ignored (env : Env) (d : DestSt) (h : 
     (data : List UInt8) (fse : Nat) (hf : d.p.fileSizeEof = some fse) :
     handleWaitingForMissingMetadata env (some (.fd h off data)) d = .ok () d := by
   msimp [handleWaitingForMissingMetadata, getP, hf]
+
+/-! ## Recovery from a loss, end to end at the receiver (deferred NAK mode) -/
+
+/-- the destination file while the bytes `[a, b)` are still missing: the first `a` bytes, zeros for
+the hole, the bytes from `b` up to `m` -/
+def holeFile (F : List UInt8) (a b m : Nat) : List UInt8 :=
+  F.take a ++ List.replicate (b - a) 0 ++ (F.drop b).take (m - b)
+
+theorem holeFile_length (F : List UInt8) (a b m : Nat) (hab : a ≤ b) (hbm : b ≤ m) (hm : m ≤ F.length) :
+    (holeFile F a b m).length = m := by
+  simp [holeFile, List.length_take, List.length_drop]; omega
+
+/-- writing the first tile behind the hole: the file so far is `F.take a`, the tile lands at `b` -/
+theorem write_creates_hole (F : List UInt8) (a b n : Nat) (hab : a < b) (hb : b < F.length) (hn : 0 < n) :
+    Fs.writeBytes (F.take a) ((F.drop b).take n) b = holeFile F a b (min (b + n) F.length) := by
+  have ha : a ≤ F.length := by omega
+  have hne : ((F.drop b).take n).isEmpty = false := by
+    cases h : (F.drop b).take n with
+    | nil =>
+      have := congrArg List.length h
+      simp [List.length_take, List.length_drop] at this; omega
+    | cons _ _ => rfl
+  have hl : (F.take a).length = a := by simp [List.length_take]; omega
+  simp only [Fs.writeBytes, hne, hl]
+  have hgt : b > a := hab
+  simp only [hgt, ite_true, Bool.false_eq_true, ite_false]
+  have h1 : (F.take a ++ List.replicate (b - a) 0).take b = F.take a ++ List.replicate (b - a) 0 := by
+    apply List.take_of_length_le; simp [hl]; omega
+  have h2 : (F.take a ++ List.replicate (b - a) 0).drop (b + ((F.drop b).take n).length) = [] := by
+    apply List.drop_of_length_le; simp [hl]; omega
+  rw [h1, h2, List.append_nil]
+  simp only [holeFile]
+  congr 1
+  by_cases hle : b + n ≤ F.length
+  · rw [Nat.min_eq_left hle, Nat.add_sub_cancel_left]
+  · have : min (b + n) F.length = F.length := by omega
+    rw [this]
+    have h3 : (F.drop b).take n = F.drop b := by
+      apply List.take_of_length_le; simp [List.length_drop]; omega
+    have h4 : (F.drop b).take (F.length - b) = F.drop b := by
+      apply List.take_of_length_le; simp [List.length_drop]
+    rw [h3, h4]
+
+/-- appending the next in-order tile behind the hole -/
+theorem write_extends_hole (F : List UInt8) (a b m n : Nat) (hab : a ≤ b) (hbm : b ≤ m) (hm : m < F.length)
+    (hn : 0 < n) :
+    Fs.writeBytes (holeFile F a b m) ((F.drop m).take n) m = holeFile F a b (min (m + n) F.length) := by
+  have hlen := holeFile_length F a b m hab hbm (by omega)
+  have hne : ((F.drop m).take n).isEmpty = false := by
+    cases h : (F.drop m).take n with
+    | nil =>
+      have := congrArg List.length h
+      simp [List.length_take, List.length_drop] at this; omega
+    | cons _ _ => rfl
+  simp only [Fs.writeBytes, hne, hlen, Nat.lt_irrefl, gt_iff_lt, ite_false, Bool.false_eq_true]
+  have h1 : (holeFile F a b m).take m = holeFile F a b m := List.take_of_length_le (by omega)
+  have h2 : (holeFile F a b m).drop (m + ((F.drop m).take n).length) = [] :=
+    List.drop_of_length_le (by omega)
+  rw [h1, h2, List.append_nil]
+  simp only [holeFile, List.append_assoc]
+  congr 2
+  -- (F.drop b).take (m - b) ++ (F.drop m).take n = (F.drop b).take (min (m+n) |F| - b)
+  have hmb : m = b + (m - b) := by omega
+  have hd : F.drop m = (F.drop b).drop (m - b) := by rw [List.drop_drop, ← hmb]
+  rw [hd]
+  by_cases hle : m + n ≤ F.length
+  · rw [Nat.min_eq_left hle]
+    have : m + n - b = (m - b) + n := by omega
+    rw [this, List.take_add]
+  · have hmin : min (m + n) F.length = F.length := by omega
+    rw [hmin]
+    have h3 : ((F.drop b).drop (m - b)).take n = (F.drop b).drop (m - b) := by
+      apply List.take_of_length_le; simp [List.length_drop]; omega
+    rw [h3]
+    have : F.length - b = (m - b) + (F.length - m) := by omega
+    rw [this, List.take_add]
+    congr 1
+    symm
+    apply List.take_of_length_le; simp [List.length_drop]; omega
+
+/-- the retransmitted tile fills the hole: the file is the source file -/
+theorem write_fills_hole (F : List UInt8) (a b : Nat) (hab : a < b) (hb : b ≤ F.length) :
+    Fs.writeBytes (holeFile F a b F.length) ((F.drop a).take (b - a)) a = F := by
+  have hlen := holeFile_length F a b F.length (by omega) hb (Nat.le_refl _)
+  have hne : ((F.drop a).take (b - a)).isEmpty = false := by
+    cases h : (F.drop a).take (b - a) with
+    | nil =>
+      have := congrArg List.length h
+      simp [List.length_take, List.length_drop] at this; omega
+    | cons _ _ => rfl
+  have hdl : ((F.drop a).take (b - a)).length = b - a := by
+    simp [List.length_take, List.length_drop]; omega
+  have hng : ¬ a > F.length := by omega
+  simp only [Fs.writeBytes, hne, hlen, hng, ite_false, Bool.false_eq_true, hdl]
+  have hab' : a + (b - a) = b := by omega
+  rw [hab']
+  have hta : (F.take a).length = a := by simp [List.length_take]; omega
+  have h1 : (holeFile F a b F.length).take a = F.take a := by
+    simp only [holeFile, List.append_assoc]
+    rw [List.take_append_of_le_length (by omega)]
+    rw [List.take_of_length_le (by omega)]
+  have h2 : (holeFile F a b F.length).drop b = F.drop b := by
+    simp only [holeFile]
+    have hl2 : (F.take a ++ List.replicate (b - a) 0).length = b := by simp [hta]; omega
+    rw [List.drop_append_of_le_length (by omega)]
+    rw [List.drop_of_length_le (by omega), List.nil_append]
+    apply List.take_of_length_le; simp [List.length_drop]
+  rw [h1, h2]
+  -- F.take a ++ (F.drop a).take (b-a) ++ F.drop b = F
+  have : (F.drop a).take (b - a) ++ F.drop b = F.drop a := by
+    have hdb : F.drop b = (F.drop a).drop (b - a) := by rw [List.drop_drop, hab']
+    rw [hdb, List.take_append_drop]
+  rw [List.append_assoc, this, List.take_append_drop]
+
+
+
+/-- receiver of an acknowledged transfer in which exactly the bytes `[a, b)` have not arrived yet:
+the file has a zero-filled hole there, the lost segment tracker holds exactly `(a, b)` -/
+structure ReceivingH (d : DestSt) (dst : String) (F : List UInt8) (a b m : Nat) (rc : RemoteCfg) (t : Tid)
+    (cks : Nat) (conf : Hdr) : Prop where
+  hbusy : d.state = .busy
+  hstep : d.step = .RECEIVING_FILE_DATA
+  hready : d.numReady = 0
+  hqueue : d.queue = []
+  hconf : d.p.conf = conf
+  hmode : conf.mode = .ack
+  hname : d.p.fileName = dst
+  hfile : d.fs.get dst = some (.file (holeFile F a b m))
+  hprog : d.p.progress = m
+  hnoEof : d.p.fileSizeEof = none
+  hrc : d.p.remoteCfg = some rc
+  himm : rc.imm = false
+  htid : d.p.tid = some t
+  hrej : d.rejects = []
+  hcks : d.p.cksType = cks
+  hcancel : d.p.canceled = false
+  hmo : d.p.metadataOnly = false
+  hflts : d.flts = []
+  hfin : d.p.fin = ⟨ccNoError, dcIncomplete, fsRetained, none⟩
+  htrk : d.p.trk = [(a, b)]
+  hlastE : d.p.lastEnd = m
+  hlastS : d.p.lastStart ≤ m
+  hmm : d.p.metadataMissing = false
+  hdef : d.p.deferredActive = false
+
+def gapP (p : Params) (a b m : Nat) : Params :=
+  { p with progress := m, lastStart := b, lastEnd := m, trk := [(a, b)] }
+
+/-- state after the first tile behind the hole -/
+def afterGap (d : DestSt) (dst : String) (F : List UInt8) (a b m n : Nat) (env : Env) (t : Tid) : DestSt :=
+  { d with fs := d.fs.set dst (.file (holeFile F a b m)), p := gapP d.p a b m,
+           inds := d.inds ++ (if env.cfg.indSegRecv then [.segRecv (some t) b n] else []) }
+
+/-- **The tile after a lost one** (deferred NAK mode): the gap `[a, b)` is recorded as lost, nothing
+is requested yet, the data is stored behind a zero-filled hole -/
+theorem C03_gap_tile (env : Env) (d : DestSt) (dst : String) (F : List UInt8) (a b n : Nat) (rc : RemoteCfg)
+    (t : Tid) (cks : Nat) (conf h : Hdr) (hr : ReceivingA d dst (F.take a) rc t cks conf) (ha : AdmissibleA env rc h)
+    (hab : a < b) (hb : b < F.length) (hn : 0 < n) (himm : rc.imm = false) :
+    stateMachine env (some (.fd h b ((F.drop b).take n))) d =
+      .ok () (afterGap d dst F a b (min (b + n) F.length) (min n (F.length - b)) env t) ∧
+    ReceivingH (afterGap d dst F a b (min (b + n) F.length) (min n (F.length - b)) env t) dst F a b
+      (min (b + n) F.length) rc t cks conf := by
+  have hla : (F.take a).length = a := by simp [List.length_take]; omega
+  have hw := write_creates_hole F a b n hab hb hn
+  have hdl : ((F.drop b).take n).length = min n (F.length - b) := by simp [List.length_take, List.length_drop]
+  have hgt : b > d.p.lastEnd := by rw [hr.hlastE, hla]; exact hab
+  have hge : b ≥ d.p.lastEnd := by omega
+  have hnle : ¬ b + min n (F.length - b) ≤ b := by omega
+  have hm : d.p.conf.mode = .ack := by rw [hr.hconf]; exact hr.hmode
+  have hmin : b + min n (F.length - b) = min (b + n) F.length := by omega
+  have hmax : max (b + min n (F.length - b)) a = min (b + n) F.length := by omega
+  have hcond : ¬ (n = 0 ∨ F.length ≤ b) := by omega
+  constructor
+  · cases hi : env.cfg.indSegRecv <;>
+    msimp [stateMachine, stateMachineWith, checkInsertedPacket, Pdu.hdr, ha.hdir, ha.hdst, ha.hsrc, Pdu.kind,
+      Route.getPacketDestination, hr.hbusy, transmissionMode, hm, nonIdleFsm,
+      fsmAdvancementAfterPacketsWereSent, hr.hqueue, hr.hstep, fsmFromReceiving, handleFdOrEofPdu, handleFdPdu,
+      fdIndication, hi, getP, emitInd, hr.htid, fdLostSegments, lostSegmentHandling, hgt, hge, hnle, hr.hrc, himm,
+      hr.htrk, Tracker.add, hdl, hr.hlastE, hcond, hab, Nat.le_of_lt hab,
+      fdWrite, vfsWriteData, hr.hrej, hr.hname,
+      Fs.writeData, hr.hfile, hw, fdAfterWrite, sizeErrOf, modP, hr.hnoEof, hr.hprog, hla, hmax, hmin,
+      fsmFromWaitingForMetadata,
+      fsmFromCheckLimit, fsmFromWaitingForMissingData, fsmFromTransferCompletion, fsmFromSendingFinishedPdu,
+      fsmFromWaitingForFinishedAck, afterGap, gapP, hr.hfin] <;> omega
+  · exact { hbusy := hr.hbusy, hstep := hr.hstep, hready := hr.hready, hqueue := hr.hqueue, hconf := hr.hconf,
+            hmode := hr.hmode, hname := hr.hname, hfile := by simp [afterGap, Fs.C17.get_set_same],
+            hprog := rfl, hnoEof := hr.hnoEof, hrc := hr.hrc, himm := himm, htid := hr.htid, hrej := hr.hrej,
+            hcks := hr.hcks, hcancel := hr.hcancel, hmo := hr.hmo, hflts := hr.hflts,
+            hfin := hr.hfin, htrk := rfl, hlastE := rfl,
+            hlastS := by simp only [afterGap, gapP]; omega, hmm := hr.hmm, hdef := hr.hdef }
+
+def tileHP (p : Params) (m m' : Nat) : Params :=
+  { p with progress := m', lastStart := m, lastEnd := m' }
+
+def afterTileH (d : DestSt) (dst : String) (F : List UInt8) (a b m m' n : Nat) (env : Env) (t : Tid) : DestSt :=
+  { d with fs := d.fs.set dst (.file (holeFile F a b m')), p := tileHP d.p m m',
+           inds := d.inds ++ (if env.cfg.indSegRecv then [.segRecv (some t) m n] else []) }
+
+/-- **Further in-order tiles behind the hole** are appended; the tracker keeps `(a, b)` -/
+theorem C03_tile_behind_hole (env : Env) (d : DestSt) (dst : String) (F : List UInt8) (a b m n : Nat)
+    (rc : RemoteCfg) (t : Tid) (cks : Nat) (conf h : Hdr) (hr : ReceivingH d dst F a b m rc t cks conf)
+    (ha : AdmissibleA env rc h) (hab : a < b) (hbm : b ≤ m) (hm : m < F.length) (hn : 0 < n) :
+    stateMachine env (some (.fd h m ((F.drop m).take n))) d =
+      .ok () (afterTileH d dst F a b m (min (m + n) F.length) (min n (F.length - m)) env t) ∧
+    ReceivingH (afterTileH d dst F a b m (min (m + n) F.length) (min n (F.length - m)) env t) dst F a b
+      (min (m + n) F.length) rc t cks conf := by
+  have hw := write_extends_hole F a b m n (Nat.le_of_lt hab) hbm hm hn
+  have hdl : ((F.drop m).take n).length = min n (F.length - m) := by simp [List.length_take, List.length_drop]
+  have hmode : d.p.conf.mode = .ack := by rw [hr.hconf]; exact hr.hmode
+  have hmin : m + min n (F.length - m) = min (m + n) F.length := by omega
+  have hmax : max (m + min n (F.length - m)) m = min (m + n) F.length := by omega
+  have hcond : ¬ (n = 0 ∨ F.length ≤ m) := by omega
+  have hirr : ¬ m < m := Nat.lt_irrefl _
+  constructor
+  · cases hi : env.cfg.indSegRecv <;>
+    msimp [stateMachine, stateMachineWith, checkInsertedPacket, Pdu.hdr, ha.hdir, ha.hdst, ha.hsrc, Pdu.kind,
+      Route.getPacketDestination, hr.hbusy, transmissionMode, hmode, nonIdleFsm,
+      fsmAdvancementAfterPacketsWereSent, hr.hqueue, hr.hstep, fsmFromReceiving, handleFdOrEofPdu, handleFdPdu,
+      fdIndication, hi, getP, emitInd, hr.htid, fdLostSegments, lostSegmentHandling, hr.hlastE, hirr, hcond,
+      hdl, fdWrite, vfsWriteData, hr.hrej, hr.hname,
+      Fs.writeData, hr.hfile, hw, fdAfterWrite, sizeErrOf, modP, hr.hnoEof, hr.hprog, hmax, hmin,
+      fsmFromWaitingForMetadata,
+      fsmFromCheckLimit, fsmFromWaitingForMissingData, fsmFromTransferCompletion, fsmFromSendingFinishedPdu,
+      fsmFromWaitingForFinishedAck, afterTileH, tileHP, hr.hfin] <;> omega
+  · exact { hbusy := hr.hbusy, hstep := hr.hstep, hready := hr.hready, hqueue := hr.hqueue, hconf := hr.hconf,
+            hmode := hr.hmode, hname := hr.hname, hfile := by simp [afterTileH, Fs.C17.get_set_same],
+            hprog := rfl, hnoEof := hr.hnoEof, hrc := hr.hrc, himm := hr.himm, htid := hr.htid, hrej := hr.hrej,
+            hcks := hr.hcks, hcancel := hr.hcancel, hmo := hr.hmo, hflts := hr.hflts,
+            hfin := hr.hfin, htrk := hr.htrk, hlastE := rfl,
+            hlastS := by simp only [afterTileH, tileHP]; omega, hmm := hr.hmm, hdef := hr.hdef }
+
+/-- **EOF while `[a, b)` is still missing**: it is acknowledged (one ACK (EOF) PDU), nothing is verified yet -/
+theorem C03_eof_with_hole (env : Env) (d : DestSt) (dst : String) (F crc : List UInt8) (a b : Nat) (rc : RemoteCfg)
+    (t : Tid) (cks : Nat) (conf h : Hdr) (hr : ReceivingH d dst F a b F.length rc t cks conf)
+    (ha : AdmissibleA env rc h) :
+    stateMachine env (some (.eof h ccNoError crc F.length none)) d = .ok () (afterEofA env d t crc F.length) := by
+  have hnlt : ¬ F.length < F.length := by omega
+  have hm : d.p.conf.mode = .ack := by rw [hr.hconf]; exact hr.hmode
+  cases hi : env.cfg.indEofRecv <;>
+  msimp [stateMachine, stateMachineWith, checkInsertedPacket, Pdu.hdr, ha.hdir, ha.hdst, ha.hsrc, Pdu.kind,
+    Route.getPacketDestination, hr.hbusy, transmissionMode, hm, nonIdleFsm,
+    fsmAdvancementAfterPacketsWereSent, hr.hqueue, hr.hstep, fsmFromReceiving, handleFdOrEofPdu, handleEofPdu,
+    modP, hi, getP, hr.htid, emitInd, handleNoErrorEof, hr.hprog, hnlt, noErrorEofVerify,
+    fileTransferCompleteTransition, prepareEofAckPacket, addPacket, hr.hready,
+    fsmFromWaitingForMetadata, fsmFromCheckLimit,
+    fsmFromWaitingForMissingData, fsmFromTransferCompletion, fsmFromSendingFinishedPdu, fsmFromWaitingForFinishedAck,
+    afterEofA, eofP, hr.hfin, ccNoError, dtEof]
+
+/-- the receiver after the EOF was acknowledged (ACK retrieved) with `[a, b)` missing -/
+structure AckedH (d : DestSt) (dst : String) (F crc : List UInt8) (a b : Nat) (rc : RemoteCfg) (t : Tid) (cks : Nat)
+    (conf : Hdr) (G : List UInt8) (m : Nat) : Prop where
+  hbusy : d.state = .busy
+  hstep : d.step = .SENDING_EOF_ACK_PDU
+  hready : d.numReady = 0
+  hqueue : d.queue = []
+  hconf : d.p.conf = conf
+  hmode : conf.mode = .ack
+  hname : d.p.fileName = dst
+  hfile : d.fs.get dst = some (.file G)
+  hprog : d.p.progress = m
+  hcrc : d.p.crc32 = crc
+  hfse : d.p.fileSizeEof = some F.length
+  hrc : d.p.remoteCfg = some rc
+  htid : d.p.tid = some t
+  hrej : d.rejects = []
+  hcks : d.p.cksType = cks
+  hcancel : d.p.canceled = false
+  hmo : d.p.metadataOnly = false
+  hfin : d.p.fin = ⟨ccNoError, dcIncomplete, fsRetained, none⟩
+  htrk : d.p.trk = [(a, b)]
+  hmm : d.p.metadataMissing = false
+  hdef : d.p.deferredActive = false
+  hpt : d.p.procTimer = none
+
+def defP (p : Params) (fse now ms : Nat) : Params :=
+  { p with deferredActive := true, lastStart := fse, lastEnd := fse, procTimer := some ⟨now, ms⟩ }
+
+/-- state after the deferred lost segment procedure was started: one NAK PDU requesting `[a, b)` -/
+def afterDeferred (env : Env) (d : DestSt) (F : List UInt8) (a b : Nat) (rc : RemoteCfg) : DestSt :=
+  { d with step := .WAITING_FOR_MISSING_DATA, p := defP d.p F.length env.now rc.nakMs,
+           queue := [mkNak d.p.conf 0 F.length [(a, b)]], numReady := 1 }
+
+/-- **The deferred procedure requests exactly what is missing**: one NAK PDU, scope `(0, |F|)`, the
+single segment request `(a, b)`; the NAK timer is started, the activity counter stays 0 -/
+theorem C03_deferred_requests_hole (env : Env) (d : DestSt) (dst : String) (F crc : List UInt8) (a b : Nat)
+    (rc : RemoteCfg) (t : Tid) (cks : Nat) (conf : Hdr) (maxSegs : Nat)
+    (G : List UInt8) (m : Nat)
+    (hr : AckedH d dst F crc a b rc t cks conf G m) (hmax : maxSegReqs rc.maxPkt conf = some maxSegs)
+    (hms : 1 ≤ maxSegs) (hnak : rc.nakMs ≠ 0) :
+    stateMachine env none d = .ok () (afterDeferred env d F a b rc) := by
+  unfold stateMachine
+  generalize (stateMachineWith env none (stateMachineWith env none (throw Err.recursionError))) = rec
+  have hmax' : maxSegReqs rc.maxPkt d.p.conf = some maxSegs := by rw [hr.hconf]; exact hmax
+  have hnm : ¬ maxSegs ≤ 0 := by omega
+  have hpos : 0 < rc.nakMs := by omega
+  msimp [stateMachineWith, hr.hbusy, nonIdleFsm, fsmAdvancementAfterPacketsWereSent, hr.hqueue,
+    hr.hstep, hr.hcancel, hr.htrk, hr.hmm, startDeferredLostSegmentHandling, getP, hr.hfse, modP,
+    Tracker.coalesce, Tracker.coalesceGo, deferredLostSegmentHandling, hr.hrc, hr.hpt, hmax', addPackets,
+    nakSequence, splitReqs, hnm, hr.hready,
+    fsmFromReceiving, fsmFromWaitingForMetadata, fsmFromCheckLimit, fsmFromWaitingForMissingData,
+    Timer.busy, Timer.timedOut, hnak, hpos,
+    fsmFromTransferCompletion, fsmFromSendingFinishedPdu, fsmFromWaitingForFinishedAck, afterDeferred, defP]
+
+/-- the receiver waiting for the retransmission of `[a, b)` (NAK retrieved) -/
+structure Waiting (d : DestSt) (dst : String) (F crc : List UInt8) (a b : Nat) (rc : RemoteCfg) (t : Tid) (cks : Nat)
+    (conf : Hdr) (tm : Timer) (G : List UInt8) (m : Nat) : Prop where
+  hbusy : d.state = .busy
+  hstep : d.step = .WAITING_FOR_MISSING_DATA
+  hready : d.numReady = 0
+  hqueue : d.queue = []
+  hconf : d.p.conf = conf
+  hmode : conf.mode = .ack
+  hname : d.p.fileName = dst
+  hfile : d.fs.get dst = some (.file G)
+  hprog : d.p.progress = m
+  hcrc : d.p.crc32 = crc
+  hfse : d.p.fileSizeEof = some F.length
+  hrc : d.p.remoteCfg = some rc
+  htid : d.p.tid = some t
+  hrej : d.rejects = []
+  hcks : d.p.cksType = cks
+  hcancel : d.p.canceled = false
+  hmo : d.p.metadataOnly = false
+  hfin : d.p.fin = ⟨ccNoError, dcIncomplete, fsRetained, none⟩
+  htrk : d.p.trk = [(a, b)]
+  hmm : d.p.metadataMissing = false
+  hdef : d.p.deferredActive = true
+  hpt : d.p.procTimer = some tm
+  hlastS : d.p.lastStart = F.length
+  hlastE : d.p.lastEnd = F.length
+
+def doneP (p : Params) (now ms nakMs n : Nat) : Params :=
+  { p with progress := n, fin := ⟨ccNoError, dcComplete, fsRetained, none⟩, ackTimer := some ⟨now, ms⟩, ackCounter := 0,
+           trk := [], deferredActive := false, nakCounter := 0, procTimer := some ⟨now, nakMs⟩ }
+
+/-- state after the retransmitted data arrived -/
+def afterRetransmission (env : Env) (d : DestSt) (dst : String) (F : List UInt8) (a b : Nat) (t : Tid)
+    (rc : RemoteCfg) (tm : Timer) : DestSt :=
+  { d with step := .WAITING_FOR_FINISHED_ACK, fs := d.fs.set dst (.file F),
+           p := doneP d.p env.now rc.ackMs tm.timeout F.length,
+           queue := [mkFin d.p.conf ⟨ccNoError, dcComplete, fsRetained, none⟩], numReady := 1,
+           inds := d.inds ++ (if env.cfg.indSegRecv then [.segRecv (some t) a (b - a)] else []) ++
+             (if env.cfg.indFinished
+               then [.finished (some t) ⟨ccNoError, dcComplete, fsRetained, none⟩] else []) }
+
+/-- **The retransmission completes the file**: the hole is filled, the tracker is empty, the
+checksum is verified, the user is told (No error, Data complete, File retained) and exactly one
+Finished PDU with those values is queued -/
+theorem C03_retransmission_completes (env : Env) (d : DestSt) (dst : String) (F crc : List UInt8) (a b : Nat)
+    (rc : RemoteCfg) (t : Tid) (cks : Nat) (conf h : Hdr) (tm : Timer) (G : List UInt8) (m : Nat)
+    (hr : Waiting d dst F crc a b rc t cks conf tm G m) (ha : AdmissibleA env rc h)
+    (hab : a < b) (hb : b ≤ F.length) (hms : rc.ackMs ≠ 0)
+    (hw : Fs.writeBytes G ((F.drop a).take (b - a)) a = F) (h7 : max b m = F.length)
+    (hver : cks = 15 ∨ ∀ fs : Fs, fs.get dst = some (.file F) →
+      Fs.calcChecksum fs (Checksum.CksType.ofNat cks) dst F.length 4096 = .ok crc) :
+    stateMachine env (some (.fd h a ((F.drop a).take (b - a)))) d =
+      .ok () (afterRetransmission env d dst F a b t rc tm) := by
+  unfold stateMachine
+  generalize (stateMachineWith env none (stateMachineWith env none (throw Err.recursionError))) = rec
+  have hdl : ((F.drop a).take (b - a)).length = b - a := by simp [List.length_take, List.length_drop]; omega
+  have hm : d.p.conf.mode = .ack := by rw [hr.hconf]; exact hr.hmode
+  have h1 : ¬ a > F.length := by omega
+  have h2 : ¬ a ≥ F.length := by omega
+  have h3 : a + (b - a) ≤ F.length := by omega
+  have h4 : a + (b - a) = b := by omega
+  have h5 : ¬ a = b := by omega
+  have h6 : ¬ b > F.length := by omega
+  have hpos : 0 < rc.ackMs := by omega
+  rcases hver with hnull | hc
+  · cases hi : env.cfg.indSegRecv <;> cases hf : env.cfg.indFinished <;>
+    msimp [stateMachineWith, checkInsertedPacket, Pdu.hdr, ha.hdir, ha.hdst, ha.hsrc, Pdu.kind,
+      Route.getPacketDestination, hr.hbusy, transmissionMode, hm, nonIdleFsm,
+      fsmAdvancementAfterPacketsWereSent, hr.hqueue, hr.hstep, fsmFromReceiving, fsmFromWaitingForMetadata,
+      fsmFromCheckLimit, fsmFromWaitingForMissingData, handleFdPdu,
+      fdIndication, hi, getP, emitInd, hr.htid, fdLostSegments, lostSegmentHandling, hr.hlastE, hr.hlastS,
+      h1, h2, h3, h4, h5, h6, h7, hb, hdl, hr.htrk, Tracker.remove, Tracker.lookup, Tracker.erase,
+      fdWrite, vfsWriteData, hr.hrej, hr.hname,
+      Fs.writeData, hr.hfile, hw, fdAfterWrite, sizeErrOf, modP, hr.hfse, hr.hprog, hr.hdef,
+      resetNakActivityParameters, hr.hpt, deferredLostSegmentHandling, hr.hcancel, hr.hrc, hr.hmm,
+      checksumVerify, hr.hcks, hnull, markComplete,
+      fsmFromTransferCompletion, handleTransferCompletion, noticeOfCompletion, hf,
+      fsmFromSendingFinishedPdu, hr.hready, prepareFinishedPdu, addPacket,
+      handleFinishedPduSent, startPositiveAckProcedure, fsmFromWaitingForFinishedAck,
+      handleWaitingForFinishedAck, handlePositiveAckProcedures, Timer.timedOut, Timer.reset, hms, hpos,
+      afterRetransmission, doneP, hr.hfin]
+  · by_cases hnull : cks = 15
+    · cases hi : env.cfg.indSegRecv <;> cases hf : env.cfg.indFinished <;>
+      msimp [stateMachineWith, checkInsertedPacket, Pdu.hdr, ha.hdir, ha.hdst, ha.hsrc, Pdu.kind,
+        Route.getPacketDestination, hr.hbusy, transmissionMode, hm, nonIdleFsm,
+        fsmAdvancementAfterPacketsWereSent, hr.hqueue, hr.hstep, fsmFromReceiving, fsmFromWaitingForMetadata,
+        fsmFromCheckLimit, fsmFromWaitingForMissingData, handleFdPdu,
+        fdIndication, hi, getP, emitInd, hr.htid, fdLostSegments, lostSegmentHandling, hr.hlastE, hr.hlastS,
+        h1, h2, h3, h4, h5, h6, h7, hb, hdl, hr.htrk, Tracker.remove, Tracker.lookup, Tracker.erase,
+        fdWrite, vfsWriteData, hr.hrej, hr.hname,
+        Fs.writeData, hr.hfile, hw, fdAfterWrite, sizeErrOf, modP, hr.hfse, hr.hprog, hr.hdef,
+        resetNakActivityParameters, hr.hpt, deferredLostSegmentHandling, hr.hcancel, hr.hrc, hr.hmm,
+        checksumVerify, hr.hcks, hnull, markComplete,
+        fsmFromTransferCompletion, handleTransferCompletion, noticeOfCompletion, hf,
+        fsmFromSendingFinishedPdu, hr.hready, prepareFinishedPdu, addPacket,
+        handleFinishedPduSent, startPositiveAckProcedure, fsmFromWaitingForFinishedAck,
+        handleWaitingForFinishedAck, handlePositiveAckProcedures, Timer.timedOut, Timer.reset, hms, hpos,
+        afterRetransmission, doneP, hr.hfin]
+    · have hcc := hc (d.fs.set dst (.file F)) (by simp [Fs.C17.get_set_same])
+      cases hi : env.cfg.indSegRecv <;> cases hf : env.cfg.indFinished <;>
+      msimp [stateMachineWith, checkInsertedPacket, Pdu.hdr, ha.hdir, ha.hdst, ha.hsrc, Pdu.kind,
+        Route.getPacketDestination, hr.hbusy, transmissionMode, hm, nonIdleFsm,
+        fsmAdvancementAfterPacketsWereSent, hr.hqueue, hr.hstep, fsmFromReceiving, fsmFromWaitingForMetadata,
+        fsmFromCheckLimit, fsmFromWaitingForMissingData, handleFdPdu,
+        fdIndication, hi, getP, emitInd, hr.htid, fdLostSegments, lostSegmentHandling, hr.hlastE, hr.hlastS,
+        h1, h2, h3, h4, h5, h6, h7, hb, hdl, hr.htrk, Tracker.remove, Tracker.lookup, Tracker.erase,
+        fdWrite, vfsWriteData, hr.hrej, hr.hname,
+        Fs.writeData, hr.hfile, hw, fdAfterWrite, sizeErrOf, modP, hr.hfse, hr.hprog, hr.hdef,
+        resetNakActivityParameters, hr.hpt, deferredLostSegmentHandling, hr.hcancel, hr.hrc, hr.hmm,
+        checksumVerify, hr.hcks, hnull, hr.hmo, hcc, hr.hcrc, markComplete,
+        fsmFromTransferCompletion, handleTransferCompletion, noticeOfCompletion, hf,
+        fsmFromSendingFinishedPdu, hr.hready, prepareFinishedPdu, addPacket,
+        handleFinishedPduSent, startPositiveAckProcedure, fsmFromWaitingForFinishedAck,
+        handleWaitingForFinishedAck, handlePositiveAckProcedures, Timer.timedOut, Timer.reset, hms, hpos,
+        afterRetransmission, doneP, hr.hfin]
+
+/-- in-order tiles never touch the NAK timer -/
+theorem feed_keeps_timer (env : Env) (h conf : Hdr) (rc : RemoteCfg) (t : Tid) (cks : Nat) (dst : String)
+    (ha : AdmissibleA env rc h) :
+    ∀ (cs : List (List UInt8)) (P : List UInt8) (d d' : DestSt), (∀ c ∈ cs, c ≠ []) →
+      ReceivingA d dst P rc t cks conf → feed env h cs P.length d = some d' →
+      d'.p.procTimer = d.p.procTimer := by
+  intro cs
+  induction cs with
+  | nil => intro P d d' _ _ hf; simp [feed] at hf; rw [hf]
+  | cons c cs ih =>
+    intro P d d' hne hr hf
+    have hc : c ≠ [] := hne c (by simp)
+    obtain ⟨hcall, hr'⟩ := C02_tile_ack env d dst P c rc t cks conf h hr ha hc
+    simp only [feed, hcall] at hf
+    have := ih (P ++ c) _ d' (fun x hx => hne x (by simp [hx])) hr' (by simpa using hf)
+    rw [this]; rfl
+
+/-- the tiles behind the hole: `k` of them, each `seg` long (the last one shorter), in order -/
+def feedSeg (env : Env) (h : Hdr) (F : List UInt8) (seg : Nat) : Nat → Nat → DestSt → Option DestSt
+  | 0, _, d => some d
+  | k + 1, m, d =>
+    match stateMachine env (some (.fd h m ((F.drop m).take seg))) d with
+    | .ok _ d' => feedSeg env h F seg k (min (m + seg) F.length) d'
+    | .error _ _ => none
+
+theorem C03_tiles_behind_hole (env : Env) (h conf : Hdr) (rc : RemoteCfg) (t : Tid) (cks : Nat) (dst : String)
+    (F : List UInt8) (a b seg : Nat) (hab : a < b) (hseg : 0 < seg) (ha : AdmissibleA env rc h) :
+    ∀ (k m : Nat) (d : DestSt), b ≤ m → m ≤ F.length → (k = 0 ∨ m + (k - 1) * seg < F.length) →
+      ReceivingH d dst F a b m rc t cks conf →
+      ∃ d', feedSeg env h F seg k m d = some d' ∧
+        ReceivingH d' dst F a b (min (m + k * seg) F.length) rc t cks conf ∧
+        (∀ q, q ≠ dst → d'.fs.get q = d.fs.get q) ∧
+        d'.inds.filter isFinished = d.inds.filter isFinished ∧ d'.p.procTimer = d.p.procTimer := by
+  intro k
+  induction k with
+  | zero =>
+    intro m d hbm hm _ hr
+    exact ⟨d, rfl, by simpa [Nat.min_eq_left hm] using hr, fun _ _ => rfl, rfl, rfl⟩
+  | succ k ih =>
+    intro m d hbm hmle hk hr
+    have hmlt : m < F.length := by
+      rcases hk with h0 | h0
+      · omega
+      · have : m ≤ m + (k + 1 - 1) * seg := Nat.le_add_right _ _
+        omega
+    obtain ⟨hcall, hr'⟩ := C03_tile_behind_hole env d dst F a b m seg rc t cks conf h hr ha hab hbm hmlt hseg
+    have hk' : k = 0 ∨ min (m + seg) F.length + (k - 1) * seg < F.length := by
+      by_cases h0 : k = 0
+      · exact Or.inl h0
+      · right
+        have h1 := hk.resolve_left (by omega)
+        simp only [Nat.add_sub_cancel] at h1
+        have h2 : k = (k - 1) + 1 := by omega
+        rw [h2, Nat.add_mul, Nat.one_mul] at h1
+        have : min (m + seg) F.length ≤ m + seg := Nat.min_le_left _ _
+        omega
+    obtain ⟨d', hf, hR, hother, hfin, hpt⟩ := ih (min (m + seg) F.length) _ (by omega) (Nat.min_le_right _ _) hk' hr'
+    refine ⟨d', ?_, ?_, ?_, ?_, ?_⟩
+    · simp only [feedSeg, hcall]; exact hf
+    · have : min (min (m + seg) F.length + k * seg) F.length = min (m + (k + 1) * seg) F.length := by
+        rw [Nat.add_mul, Nat.one_mul]; omega
+      rw [← this]; exact hR
+    · intro q hq
+      rw [hother q hq]
+      simp [afterTileH, Fs.C17.get_set_other _ _ _ _ hq]
+    · rw [hfin]
+      simp only [afterTileH]
+      split <;> simp [isFinished]
+    · rw [hpt]; rfl
+
+/-- **Recovery from the loss of one File Data PDU (receiver, deferred NAK mode).**  For every file
+`F`, segment length `seg ≥ 1`, header configuration, checksum type and indication setting, and every
+tile `[a, b)` of the file that is not the last one (`b = a + seg < |F|`, `a` on the segment grid):
+the receiver is handed Metadata, the tiles before `a` in order, *not* the tile `[a, b)`, the tiles
+from `b` on in order, the EOF.  Then
+
+* it acknowledges the EOF, and — after the ACK was retrieved — its next call queues **exactly one NAK
+  PDU with scope `(0, |F|)` and the single segment request `(a, b)`**: it requests exactly what is
+  missing, nothing else (C06);
+* when the sender re-sends those bytes, the same call fills the hole, verifies the checksum, tells
+  the user (No error, Data complete, File retained) and queues exactly one Finished PDU with these
+  values; the sender's ACK (Finished) leaves the receiver idle;
+* no call raised, no fault callback, the destination file is byte-identical to `F`, every other
+  path is untouched. -/
+theorem C03_single_loss_recovery (env env2 env3 env4 : Env) (d0 : DestSt) (h hack : Hdr) (rc : RemoteCfg)
+    (closure : Bool) (cks : Nat) (sname dname : String) (msgs : Option (List Msg)) (F crc : List UInt8)
+    (cs1 : List (List UInt8)) (a b seg k maxSegs cond ts : Nat)
+    (ha : AdmissibleA env rc h) (ha3 : AdmissibleA env3 rc h) (ha4 : AdmissibleA env4 rc hack)
+    (hms : rc.ackMs ≠ 0) (hnak : rc.nakMs ≠ 0) (himm : rc.imm = false)
+    (hmaxs : maxSegReqs rc.maxPkt ⟨.toSend, h.mode, h.crc, h.large, h.src, h.dst, h.seq⟩ = some maxSegs)
+    (hmax1 : 1 ≤ maxSegs)
+    (hidle : d0.state = .idle) (hq : d0.queue = []) (hr : d0.numReady = 0) (hrej : d0.rejects = [])
+    (hfl : d0.flts = []) (hnd : Fs.isDir d0.fs dname = false)
+    (hok : (∃ old, d0.fs.get dname = some (.file old)) ∨
+           (Fs.exists' d0.fs dname = false ∧ Fs.parentIsDir d0.fs dname = true))
+    (hcs1 : cs1.flatten = F.take a) (hne1 : ∀ c ∈ cs1, c ≠ [])
+    (hseg : 0 < seg) (hb : b = a + seg) (hbF : b < F.length)
+    (hk : min (b + seg) F.length + (k - 1) * seg < F.length ∨ k = 0)
+    (hkend : F.length ≤ min (b + seg) F.length + k * seg)
+    (hcrc : cks = 15 ∨ ∀ fs : Fs, fs.get dname = some (.file F) →
+      Fs.calcChecksum fs (Checksum.CksType.ofNat cks) dname F.length 4096 = .ok crc) :
+    ∃ d1 d2 d3 d4 d5 d6 d7 d8,
+      stateMachine env (some (.md h closure cks F.length (some sname) (some dname) msgs)) d0 = .ok () d1 ∧
+      feed env h cs1 0 d1 = some d2 ∧
+      stateMachine env (some (.fd h b ((F.drop b).take seg))) d2 = .ok () d3 ∧
+      feedSeg env h F seg k (min (b + seg) F.length) d3 = some d4 ∧
+      stateMachine env (some (.eof h ccNoError crc F.length none)) d4 = .ok () d5 ∧
+      stateMachine env2 none (drained d5) = .ok () d6 ∧
+      d6.queue = [mkNak d1.p.conf 0 F.length [(a, b)]] ∧
+      stateMachine env3 (some (.fd h a ((F.drop a).take (b - a)))) (drained d6) = .ok () d7 ∧
+      d7.queue = [mkFin d1.p.conf ⟨ccNoError, dcComplete, fsRetained, none⟩] ∧
+      stateMachine env4 (some (.ack hack dtFinished cond ts)) (drained d7) = .ok () d8 ∧
+      d8.state = .idle ∧ d8.queue = [] ∧ d8.flts = [] ∧
+      d8.fs.get dname = some (.file F) ∧ (∀ q, q ≠ dname → d8.fs.get q = d0.fs.get q) := by
+  have hab : a < b := by omega
+  have haF : a ≤ F.length := by omega
+  -- Metadata and the tiles before the lost one
+  obtain ⟨hmd, hR1⟩ := C02_metadata_ack env d0 h rc closure cks F.length sname dname msgs ha hidle hq hr hrej hfl hnd hok
+  obtain ⟨d2, hfeed, hR2, hother2, hfin2⟩ := C02_tiles_ack env h _ rc _ cks dname ha cs1 [] _ hne1 hR1
+  have hpt2 := feed_keeps_timer env h _ rc _ cks dname ha cs1 [] _ d2 hne1 hR1 hfeed
+  simp only [List.nil_append, hcs1, List.length_nil] at hfeed hR2
+  -- the tile behind the lost one
+  obtain ⟨hgap, hR3⟩ := C03_gap_tile env d2 dname F a b seg rc _ cks _ h hR2 ha hab hbF hseg himm
+  -- the remaining tiles
+  obtain ⟨d4, hfs, hR4, hother4, hfin4, hpt4⟩ := C03_tiles_behind_hole env h _ rc _ cks dname F a b seg hab hseg ha
+    k (min (b + seg) F.length) _ (by omega) (Nat.min_le_right _ _) (by rcases hk with h1 | h1; exact Or.inr h1; exact Or.inl h1)
+    hR3
+  have hend : min (min (b + seg) F.length + k * seg) F.length = F.length := by omega
+  rw [hend] at hR4
+  -- EOF
+  have heof := C03_eof_with_hole env d4 dname F crc a b rc _ cks _ h hR4 ha
+  -- deferred procedure
+  have hA : AckedH (drained (afterEofA env d4 ⟨h.src, h.seq⟩ crc F.length)) dname F crc a b rc ⟨h.src, h.seq⟩ cks
+      ⟨.toSend, h.mode, h.crc, h.large, h.src, h.dst, h.seq⟩ (holeFile F a b F.length) F.length :=
+    { hbusy := hR4.hbusy, hstep := rfl, hready := rfl, hqueue := rfl, hconf := hR4.hconf, hmode := hR4.hmode,
+      hname := hR4.hname, hfile := hR4.hfile, hprog := hR4.hprog, hcrc := rfl, hfse := rfl, hrc := hR4.hrc,
+      htid := hR4.htid, hrej := hR4.hrej, hcks := hR4.hcks, hcancel := hR4.hcancel, hmo := hR4.hmo,
+      hfin := hR4.hfin, htrk := hR4.htrk, hmm := hR4.hmm, hdef := hR4.hdef,
+      hpt := by
+        show d4.p.procTimer = none
+        rw [hpt4]; show d2.p.procTimer = none
+        rw [hpt2]; rfl }
+  have hdef := C03_deferred_requests_hole env2 _ dname F crc a b rc _ cks _ maxSegs _ _ hA hmaxs hmax1 hnak
+  -- retransmission
+  have hW : Waiting (drained (afterDeferred env2 (drained (afterEofA env d4 ⟨h.src, h.seq⟩ crc F.length)) F a b rc))
+      dname F crc a b rc ⟨h.src, h.seq⟩ cks ⟨.toSend, h.mode, h.crc, h.large, h.src, h.dst, h.seq⟩
+      ⟨env2.now, rc.nakMs⟩ (holeFile F a b F.length) F.length :=
+    { hbusy := hR4.hbusy, hstep := rfl, hready := rfl, hqueue := rfl, hconf := hR4.hconf, hmode := hR4.hmode,
+      hname := hR4.hname, hfile := hR4.hfile, hprog := hR4.hprog, hcrc := rfl, hfse := rfl, hrc := hR4.hrc,
+      htid := hR4.htid, hrej := hR4.hrej, hcks := hR4.hcks, hcancel := hR4.hcancel, hmo := hR4.hmo,
+      hfin := hR4.hfin, htrk := hR4.htrk, hmm := hR4.hmm, hdef := rfl, hpt := rfl, hlastS := rfl, hlastE := rfl }
+  have hret := C03_retransmission_completes env3 _ dname F crc a b rc _ cks _ h _ _ _ hW ha3 hab (by omega) hms
+    (write_fills_hole F a b hab (by omega)) (by omega) hcrc
+  -- ACK (Finished)
+  have hfa := C02_finished_acked env4 (drained (afterRetransmission env3
+      (drained (afterDeferred env2 (drained (afterEofA env d4 ⟨h.src, h.seq⟩ crc F.length)) F a b rc))
+      dname F a b ⟨h.src, h.seq⟩ rc ⟨env2.now, rc.nakMs⟩)) rc hack cond ts ha4 hR4.hbusy rfl rfl
+    (by simp [drained, afterRetransmission, doneP, afterDeferred, defP, afterEofA, eofP, hR4.hconf, ha.hmode])
+  refine ⟨_, d2, _, d4, _, _, _, _, hmd, hfeed, hgap, hfs, heof, hdef, ?_, hret, ?_, hfa, rfl, rfl, ?_, ?_, ?_⟩
+  · simp [afterDeferred, drained, afterEofA, eofP, hR4.hconf, afterMdA, mdParamsA]
+  · simp [afterRetransmission, drained, afterDeferred, defP, afterEofA, eofP, hR4.hconf, afterMdA, mdParamsA]
+  · simp [drained, afterRetransmission, afterDeferred, afterEofA, hR4.hflts]
+  · simp [drained, afterRetransmission, Fs.C17.get_set_same]
+  · intro q hq'
+    simp only [drained, afterRetransmission, afterDeferred, afterEofA]
+    rw [Fs.C17.get_set_other _ _ _ _ hq', hother4 q hq']
+    simp only [afterGap]
+    rw [Fs.C17.get_set_other _ _ _ _ hq', hother2 q hq']
+    simp [afterMdA, Fs.C17.get_set_other _ _ _ _ hq']
+
+/-! ### the tail of the file is lost -/
+
+def eofTailP (p : Params) (crc : List UInt8) (a size : Nat) : Params :=
+  { p with crc32 := crc, fileSizeEof := some size, trk := [(a, size)] }
+
+def afterEofTail (env : Env) (d : DestSt) (t : Tid) (crc : List UInt8) (a size : Nat) : DestSt :=
+  { d with step := .SENDING_EOF_ACK_PDU, p := eofTailP d.p crc a size,
+           queue := [mkAck d.p.conf dtEof ccNoError tsActive], numReady := 1,
+           inds := d.inds ++ (if env.cfg.indEofRecv then [.eofRecv t] else []) }
+
+/-- **EOF announcing more than was received**: the missing tail `[a, |F|)` is recorded as lost and the
+EOF is acknowledged -/
+theorem C03_eof_tail_missing (env : Env) (d : DestSt) (dst : String) (F crc : List UInt8) (a : Nat)
+    (rc : RemoteCfg) (t : Tid) (cks : Nat) (conf h : Hdr) (hr : ReceivingA d dst (F.take a) rc t cks conf)
+    (ha : AdmissibleA env rc h) (haF : a < F.length) :
+    stateMachine env (some (.eof h ccNoError crc F.length none)) d =
+      .ok () (afterEofTail env d t crc a F.length) := by
+  have hla : (F.take a).length = a := by simp [List.length_take]; omega
+  have hngt : ¬ a > F.length := by omega
+  have hm : d.p.conf.mode = .ack := by rw [hr.hconf]; exact hr.hmode
+  cases hi : env.cfg.indEofRecv <;>
+  msimp [stateMachine, stateMachineWith, checkInsertedPacket, Pdu.hdr, ha.hdir, ha.hdst, ha.hsrc, Pdu.kind,
+    Route.getPacketDestination, hr.hbusy, transmissionMode, hm, nonIdleFsm,
+    fsmAdvancementAfterPacketsWereSent, hr.hqueue, hr.hstep, fsmFromReceiving, handleFdOrEofPdu, handleEofPdu,
+    modP, hi, getP, hr.htid, emitInd, handleNoErrorEof, hr.hprog, hla, haF, hngt, hr.htrk, Tracker.add,
+    noErrorEofVerify,
+    fileTransferCompleteTransition, prepareEofAckPacket, addPacket, hr.hready,
+    fsmFromWaitingForMetadata, fsmFromCheckLimit,
+    fsmFromWaitingForMissingData, fsmFromTransferCompletion, fsmFromSendingFinishedPdu, fsmFromWaitingForFinishedAck,
+    afterEofTail, eofTailP, hr.hfin, ccNoError, dtEof]
+
+/-- **Recovery from the loss of the tail of the file** (receiver, acknowledged mode): the receiver got
+Metadata and the first `a` bytes (in order, `a < |F|`), then the EOF.  It acknowledges the EOF; its next
+call queues exactly one NAK PDU with scope `(0, |F|)` and the single request `(a, |F|)`; when those
+bytes arrive the file is complete, verified and reported, one Finished PDU is queued; the ACK
+(Finished) leaves it idle; the destination file is byte-identical to `F`. -/
+theorem C03_tail_loss_recovery (env env2 env3 env4 : Env) (d0 : DestSt) (h hack : Hdr) (rc : RemoteCfg)
+    (closure : Bool) (cks : Nat) (sname dname : String) (msgs : Option (List Msg)) (F crc : List UInt8)
+    (cs1 : List (List UInt8)) (a maxSegs cond ts : Nat)
+    (ha : AdmissibleA env rc h) (ha3 : AdmissibleA env3 rc h) (ha4 : AdmissibleA env4 rc hack)
+    (hms : rc.ackMs ≠ 0) (hnak : rc.nakMs ≠ 0)
+    (hmaxs : maxSegReqs rc.maxPkt ⟨.toSend, h.mode, h.crc, h.large, h.src, h.dst, h.seq⟩ = some maxSegs)
+    (hmax1 : 1 ≤ maxSegs)
+    (hidle : d0.state = .idle) (hq : d0.queue = []) (hr : d0.numReady = 0) (hrej : d0.rejects = [])
+    (hfl : d0.flts = []) (hnd : Fs.isDir d0.fs dname = false)
+    (hok : (∃ old, d0.fs.get dname = some (.file old)) ∨
+           (Fs.exists' d0.fs dname = false ∧ Fs.parentIsDir d0.fs dname = true))
+    (hcs1 : cs1.flatten = F.take a) (hne1 : ∀ c ∈ cs1, c ≠ []) (haF : a < F.length)
+    (hcrc : cks = 15 ∨ ∀ fs : Fs, fs.get dname = some (.file F) →
+      Fs.calcChecksum fs (Checksum.CksType.ofNat cks) dname F.length 4096 = .ok crc) :
+    ∃ d1 d2 d5 d6 d7 d8,
+      stateMachine env (some (.md h closure cks F.length (some sname) (some dname) msgs)) d0 = .ok () d1 ∧
+      feed env h cs1 0 d1 = some d2 ∧
+      stateMachine env (some (.eof h ccNoError crc F.length none)) d2 = .ok () d5 ∧
+      stateMachine env2 none (drained d5) = .ok () d6 ∧
+      d6.queue = [mkNak d1.p.conf 0 F.length [(a, F.length)]] ∧
+      stateMachine env3 (some (.fd h a ((F.drop a).take (F.length - a)))) (drained d6) = .ok () d7 ∧
+      d7.queue = [mkFin d1.p.conf ⟨ccNoError, dcComplete, fsRetained, none⟩] ∧
+      stateMachine env4 (some (.ack hack dtFinished cond ts)) (drained d7) = .ok () d8 ∧
+      d8.state = .idle ∧ d8.queue = [] ∧ d8.flts = [] ∧
+      d8.fs.get dname = some (.file F) ∧ (∀ q, q ≠ dname → d8.fs.get q = d0.fs.get q) := by
+  obtain ⟨hmd, hR1⟩ := C02_metadata_ack env d0 h rc closure cks F.length sname dname msgs ha hidle hq hr hrej hfl hnd hok
+  obtain ⟨d2, hfeed, hR2, hother2, hfin2⟩ := C02_tiles_ack env h _ rc _ cks dname ha cs1 [] _ hne1 hR1
+  have hpt2 := feed_keeps_timer env h _ rc _ cks dname ha cs1 [] _ d2 hne1 hR1 hfeed
+  simp only [List.nil_append, hcs1, List.length_nil] at hfeed hR2
+  have hla : (F.take a).length = a := by simp [List.length_take]; omega
+  have heof := C03_eof_tail_missing env d2 dname F crc a rc _ cks _ h hR2 ha haF
+  have hA : AckedH (drained (afterEofTail env d2 ⟨h.src, h.seq⟩ crc a F.length)) dname F crc a F.length rc
+      ⟨h.src, h.seq⟩ cks ⟨.toSend, h.mode, h.crc, h.large, h.src, h.dst, h.seq⟩ (F.take a) a :=
+    { hbusy := hR2.hbusy, hstep := rfl, hready := rfl, hqueue := rfl, hconf := hR2.hconf, hmode := hR2.hmode,
+      hname := hR2.hname, hfile := hR2.hfile, hprog := by show d2.p.progress = a; rw [hR2.hprog, hla], hcrc := rfl, hfse := rfl,
+      hrc := hR2.hrc, htid := hR2.htid, hrej := hR2.hrej, hcks := hR2.hcks, hcancel := hR2.hcancel, hmo := hR2.hmo,
+      hfin := hR2.hfin, htrk := rfl, hmm := hR2.hmm, hdef := hR2.hdef,
+      hpt := by show d2.p.procTimer = none; rw [hpt2]; rfl }
+  have hdef := C03_deferred_requests_hole env2 _ dname F crc a F.length rc _ cks _ maxSegs _ _ hA hmaxs hmax1 hnak
+  have hW : Waiting (drained (afterDeferred env2 (drained (afterEofTail env d2 ⟨h.src, h.seq⟩ crc a F.length)) F a
+      F.length rc)) dname F crc a F.length rc ⟨h.src, h.seq⟩ cks ⟨.toSend, h.mode, h.crc, h.large, h.src, h.dst, h.seq⟩
+      ⟨env2.now, rc.nakMs⟩ (F.take a) a :=
+    { hbusy := hR2.hbusy, hstep := rfl, hready := rfl, hqueue := rfl, hconf := hR2.hconf, hmode := hR2.hmode,
+      hname := hR2.hname, hfile := hR2.hfile, hprog := by show d2.p.progress = a; rw [hR2.hprog, hla], hcrc := rfl, hfse := rfl,
+      hrc := hR2.hrc, htid := hR2.htid, hrej := hR2.hrej, hcks := hR2.hcks, hcancel := hR2.hcancel, hmo := hR2.hmo,
+      hfin := hR2.hfin, htrk := rfl, hmm := hR2.hmm, hdef := rfl, hpt := rfl, hlastS := rfl, hlastE := rfl }
+  have hwr : Fs.writeBytes (F.take a) ((F.drop a).take (F.length - a)) a = F := by
+    have h1 : (F.drop a).take (F.length - a) = F.drop a := by
+      apply List.take_of_length_le; simp [List.length_drop]
+    have hne : (F.drop a).isEmpty = false := by
+      cases hh : F.drop a with
+      | nil => have := congrArg List.length hh; simp [List.length_drop] at this; omega
+      | cons _ _ => rfl
+    rw [h1]
+    simp only [Fs.writeBytes, hne, hla, Nat.lt_irrefl, gt_iff_lt, ite_false, Bool.false_eq_true]
+    have e1 : (F.take a).take a = F.take a := List.take_of_length_le (by omega)
+    have e2 : (F.take a).drop (a + (F.drop a).length) = [] := List.drop_of_length_le (by omega)
+    rw [e1, e2, List.append_nil, List.take_append_drop]
+  have hret := C03_retransmission_completes env3 _ dname F crc a F.length rc _ cks _ h _ _ _ hW ha3 haF
+    (Nat.le_refl _) hms hwr (by omega) hcrc
+  have hfa := C02_finished_acked env4 (drained (afterRetransmission env3
+      (drained (afterDeferred env2 (drained (afterEofTail env d2 ⟨h.src, h.seq⟩ crc a F.length)) F a F.length rc))
+      dname F a F.length ⟨h.src, h.seq⟩ rc ⟨env2.now, rc.nakMs⟩)) rc hack cond ts ha4 hR2.hbusy rfl rfl
+    (by simp [drained, afterRetransmission, doneP, afterDeferred, defP, afterEofTail, eofTailP, hR2.hconf, ha.hmode])
+  refine ⟨_, d2, _, _, _, _, hmd, hfeed, heof, hdef, ?_, hret, ?_, hfa, rfl, rfl, ?_, ?_, ?_⟩
+  · simp [afterDeferred, drained, afterEofTail, eofTailP, hR2.hconf, afterMdA, mdParamsA]
+  · simp [afterRetransmission, drained, afterDeferred, defP, afterEofTail, eofTailP, hR2.hconf, afterMdA, mdParamsA]
+  · simp [drained, afterRetransmission, afterDeferred, afterEofTail, hR2.hflts]
+  · simp [drained, afterRetransmission, Fs.C17.get_set_same]
+  · intro q hq'
+    simp only [drained, afterRetransmission, afterDeferred, afterEofTail]
+    rw [Fs.C17.get_set_other _ _ _ _ hq', hother2 q hq']
+    simp [afterMdA, Fs.C17.get_set_other _ _ _ _ hq']
 
 end Cfdp.C03
